@@ -237,6 +237,24 @@ Fixpoint scatter (out : list Q) (line : list nat) (vals : list Q) : list Q :=
   | _, _ => out
   end.
 
+(* the index lists of the lines of a C-ordered array of shape `shape` along numpy axis `ax`:
+   element (o, k, i) -- outer block, position on the axis, inner block -- sits at ((o*len + k)*inner + i);
+   lines are enumerated as numpy.moveaxis(idx, ax, -1).reshape(-1, len) does *)
+Definition prod (l : list nat) : nat := fold_right Nat.mul 1%nat l.
+Definition lines_of (shape : list nat) (ax : nat) : list (list nat) :=
+  let outer := prod (firstn ax shape) in
+  let len := nth ax shape O in
+  let inner := prod (skipn (S ax) shape) in
+  flat_map (fun o => map (fun i => map (fun k => ((o * len + k) * inner + i)%nat) (seq 0 len)) (seq 0 inner))
+           (seq 0 outer).
+(* pydl numbers axes the IDL way: axis k is numpy axis ndim-1-k *)
+Definition lines_pydl (shape : list nat) (axis : nat) : list (list nat) := lines_of shape (length shape - 1 - axis).
+
+Definition lines_eqb (a b : list (list nat)) : bool :=
+  Nat.eqb (length a) (length b) &&
+  forallb (fun p => Nat.eqb (length (fst p)) (length (snd p)) && forallb (fun q => Nat.eqb (fst q) (snd q)) (combine (fst p) (snd p)))
+          (combine a b).
+
 Definition line_model (ys : list Q) (mask : list bool) (xval : option (list Q)) (line : list nat) : list Q :=
   maskinterp1_model (gather 0 ys line) (gather false mask line) (option_map (fun xs => gather 0 xs line) xval).
 Definition line_spec (ys : list Q) (mask : list bool) (xval : option (list Q)) (line : list nat) : list Q :=
@@ -321,7 +339,8 @@ Definition pydl_median1 (arr : list Z) (width : Z) : list Z :=
                 else median_of (map (fun j => nthz arr j) (zrange (i - h) (Z.to_nat kern))))
       (zrange 0 (length arr)).
 
-Inductive mres := MErr | MOk (l : list Z).
+(* MErr = the call raises ValueError; MOther = any other exception (never expected) *)
+Inductive mres := MErr | MOther | MOk (l : list Z).
 
 Definition median_reflect_model (xs : list Z) (width : Z) : mres :=
   if width =? 1 then MOk xs
@@ -347,6 +366,24 @@ Definition median_reflect_spec (xs : list Z) (width : Z) : list Z :=
   map (fun i => median_of (map (fun j => nth (Z.to_nat (reflect n j)) xs 0) (zrange (i - h) (Z.to_nat width))))
       (zrange 0 (length xs)).
 
+(* S, total: width 1 returns the input; an even width is refused (scipy.signal.medfilt accepts odd kernels only)
+   and so is an array with fewer than ceil(width/2) samples unless it has exactly one (numpy cannot broadcast the
+   reversed end into the padding) -- both are ValueError; otherwise the reflected-window median *)
+Definition median_reflect_total_spec (xs : list Z) (width : Z) : mres :=
+  let n := length xs in
+  let pad := Z.to_nat ((width + 1) / 2) in
+  if width =? 1 then MOk xs
+  else if Z.even width then MErr
+  else if (n <? pad)%nat && negb (n =? 1)%nat then MErr
+  else MOk (median_reflect_spec xs width).
+
+Definition mres_eqb (a b : mres) : bool :=
+  match a, b with
+  | MErr, MErr => true
+  | MOk x, MOk y => Nat.eqb (length x) (length y) && forallb (fun p => Z.eqb (fst p) (snd p)) (combine x y)
+  | _, _ => false
+  end.
+
 (* 2-D (list of rows): medfilt2d over a width x width box of the reflected image *)
 Definition median_reflect2_spec (rows : list (list Z)) (width : Z) : list (list Z) :=
   let nr := Z.of_nat (length rows) in
@@ -360,6 +397,59 @@ Definition median_reflect2_spec (rows : list (list Z)) (width : Z) : list (list 
                                     (zrange (i - h) (Z.to_nat width))))
              (zrange 0 (Z.to_nat nc)))
       (zrange 0 (length rows)).
+
+(* M for the 2-D case.  element (i, j) of a list of rows, 0 outside (medfilt2d pads with zeros) *)
+Definition nthz2 (rows : list (list Z)) (i j : Z) : Z := if i <? 0 then 0 else nthz (nth (Z.to_nat i) rows []) j.
+
+(* pydl.median(array, width) for 2-D: medfilt2d(array, min(width, size)), border rows and columns restored *)
+Definition pydl_median2 (arr : list (list Z)) (width : Z) : list (list Z) :=
+  let nr := Z.of_nat (length arr) in
+  let nc := Z.of_nat (length (hd [] arr)) in
+  let kern := Z.min width (nr * nc) in
+  let h := kern / 2 in
+  let istart := (width - 1) / 2 in
+  let iend0 := nr - (width + 1) / 2 in
+  let iend1 := nc - (width + 1) / 2 in
+  map (fun i =>
+         map (fun j =>
+                if (i <? istart) || (iend0 <? i) || ((j <? istart) || (iend1 <? j)) then nthz2 arr i j
+                else median_of (flat_map (fun a => map (fun b => nthz2 arr a b) (zrange (j - h) (Z.to_nat kern)))
+                                         (zrange (i - h) (Z.to_nat kern))))
+             (zrange 0 (Z.to_nat nc)))
+      (zrange 0 (length arr)).
+
+Inductive m2res := M2Err | M2Other | M2Ok (rows : list (list Z)).
+
+(* top/bottom rows reversed, left/right columns reversed, corners reversed both ways: every row of the
+   row-padded image is padded in turn *)
+Definition pad_reflect {A} (pad : nat) (l : list A) : list A :=
+  rev (firstn pad l) ++ l ++ rev (skipn (length l - pad) l).
+
+Definition median_reflect2_model (rows : list (list Z)) (width : Z) : m2res :=
+  if width =? 1 then M2Ok rows
+  else
+    let nr := length rows in
+    let nc := length (hd [] rows) in
+    let pad := Z.to_nat ((width + 1) / 2) in
+    if (nr <? pad)%nat || (nc <? pad)%nat then M2Err          (* (arrays with a single row/column broadcast; not modelled) *)
+    else if Z.even width then M2Err
+    else
+      let big := map (pad_reflect pad) (pad_reflect pad rows) in
+      M2Ok (map (fun r => firstn nc (skipn pad r)) (firstn nr (skipn pad (pydl_median2 big width)))).
+
+Definition median_reflect2_total_spec (rows : list (list Z)) (width : Z) : m2res :=
+  let pad := Z.to_nat ((width + 1) / 2) in
+  if width =? 1 then M2Ok rows
+  else if Z.even width then M2Err
+  else if (length rows <? pad)%nat || (length (hd [] rows) <? pad)%nat then M2Err
+  else M2Ok (median_reflect2_spec rows width).
+
+Definition rows_eqb (a b : list (list Z)) : bool :=
+  Nat.eqb (length a) (length b) &&
+  forallb (fun p => Nat.eqb (length (fst p)) (length (snd p)) && forallb (fun q => Z.eqb (fst q) (snd q)) (combine (fst p) (snd p)))
+          (combine a b).
+Definition m2res_eqb (a b : m2res) : bool :=
+  match a, b with M2Err, M2Err => true | M2Ok x, M2Ok y => rows_eqb x y | _, _ => false end.
 
 (* ------------------------------------------------------------------ skymask *)
 
@@ -432,10 +522,11 @@ Definition qres_close (m : list Q) (r : qres) : bool :=
 Inductive case :=
 | CReject (o : ropts) (pts : list point) (expect : rres)
 | CInterp (ys : list Q) (mask : list bool) (xval : option (list Q)) (expect : qres)
-| CInterpND (ys : list Q) (mask : list bool) (xval : option (list Q)) (lines : list (list nat)) (expect : qres)
+| CInterpND (ys : list Q) (mask : list bool) (xval : option (list Q)) (shape : list nat) (axis : nat)
+            (np_lines : list (list nat)) (expect : qres)
 | CAesth (meth : amethod) (flux iv : list Q) (expect : qres)
 | CMedian (xs : list Z) (width : Z) (expect : mres)
-| CMedian2 (rows : list (list Z)) (width : Z) (expect : list (list Z))
+| CMedian2 (rows : list (list Z)) (width : Z) (expect : m2res)
 | CSky (f1 f2 : Z) (ngrow : nat) (iv : list Q) (mask : option (list Z)) (expect : qres).
 
 Definition verdict (model_ok spec_ok : bool) : Z :=
@@ -447,23 +538,17 @@ Definition run_case (c : case) : Z :=
   | CReject o pts expect => verdict (rres_eqb (reject_model o pts) expect) (rres_eqb (reject_spec o pts) expect)
   | CInterp ys mask xval expect =>
       verdict (qres_close (maskinterp1_model ys mask xval) expect) (qres_close (maskinterp1_spec ys mask xval) expect)
-  | CInterpND ys mask xval lines expect =>
-      verdict (qres_close (maskinterp_nd_model ys mask xval lines) expect)
+  | CInterpND ys mask xval shape axis np_lines expect =>
+      (* the lines are derived here from (shape, axis) and must be the ones numpy.moveaxis reports *)
+      let lines := lines_pydl shape axis in
+      verdict (lines_eqb lines np_lines && qres_close (maskinterp_nd_model ys mask xval lines) expect)
               (qres_close (maskinterp_nd_spec ys mask xval lines) expect)
   | CAesth meth flux iv expect =>
       verdict (qres_close (aesthetics_model meth flux iv) expect) (qres_close (aesthetics_spec meth flux iv) expect)
   | CMedian xs width expect =>
-      let m := median_reflect_model xs width in
-      verdict (match m, expect with MErr, MErr => true | MOk a, MOk b => zlist_eqb a b | _, _ => false end)
-              (match m, expect with
-               | MOk _, MOk b => zlist_eqb (median_reflect_spec xs width) b
-               | MOk _, MErr => false       (* a window the property covers, and no answer *)
-               | MErr, _ => true            (* even width / array shorter than the padding: outside S *)
-               end)
+      verdict (mres_eqb (median_reflect_model xs width) expect) (mres_eqb (median_reflect_total_spec xs width) expect)
   | CMedian2 rows width expect =>
-      let s := median_reflect2_spec rows width in
-      let ok := Nat.eqb (length s) (length expect) && forallb (fun p => zlist_eqb (fst p) (snd p)) (combine s expect) in
-      verdict ok ok
+      verdict (m2res_eqb (median_reflect2_model rows width) expect) (m2res_eqb (median_reflect2_total_spec rows width) expect)
   | CSky f1 f2 ngrow iv mask expect =>
       verdict (qres_close (skymask_row_model f1 f2 ngrow iv mask) expect)
               (qres_close (skymask_row_spec f1 f2 ngrow iv mask) expect)
